@@ -286,6 +286,8 @@ def _copy_obj(o):
         n["attrs"] = dict(n["attrs"])
     if "pieces" in n:
         n["pieces"] = dict(n["pieces"])
+    if "item_states" in n:
+        n["item_states"] = dict(n["item_states"])
     return n
 
 
@@ -632,6 +634,9 @@ class Interp:
                                 if isinstance(it, Ref):
                                     _import_obj(nxt, s, it.oid)
                                     self.birth[it.oid] = s
+                                    # the same object (allocated before a partition point) can be appended on several paths:
+                                    # remember the producing state per list position
+                                    nxt.heap[oid].setdefault("item_states", {})[len(nxt.heap[oid]["items"]) - 1] = s
                                 elif isinstance(it, IntV):
                                     # project the element: a fresh symbol with the candidate bounds (over loop-invariant quantities) that hold
                                     # where it was produced; the bounds are attached to the item and only assumed when the item is drawn
